@@ -1,12 +1,15 @@
 import ZV.Model.C08
 /-! line protocol for C08:
     `c08 <useed> <fp:subj:iss:skid:akid;…> <chk rows of 0/1;…> <op,op,…|->`
-    ops: `a<r>:<i>` AddCert, `p<r>:<tok.tok…>` AppendCertsFromPEM (tok `c<i>` = certificate i, anything else = skipped block),
+    ops: `a<r>:<i>` AddCert (`a<r>:n` = AddCert(nil)), `p<r>:<tok.tok…>` AppendCertsFromPEM; tok `g` = text that is not PEM
+         (pem.Decode yields no block for it), else `<hex of block.Type>_<len(block.Headers)>_<body>` with body `c<i>` = DER of
+         certificate i (ParseCertificate succeeds), `u<i>` truncated DER / `t<i>` DER + trailing byte / `e` empty (ParseCertificate fails);
+         WHICH blocks are skipped is decided by the model (`Block.skipped`, `appendCertsFromPEM`),
          `s<d>:<a>:<b>` regs[d] = regs[a].Sum(regs[b]).
     output: one observation of ALL FOUR pool variables for the initial state and after EVERY operation (the state
             after k operations is `run init (ops.take k)`), joined by `#`, then `M=` PEM results.  An observation is,
             per variable (`|`), `nil` or `size/uids/subjects/C=<Contains bits>/N=<byName buckets>/K=<bySubjectKeyId
-            buckets>/P=<findVerifiedParents per certificate: parents/errCert/errNil>` -- or `=` when that text is
+            buckets>/P=<findVerifiedParents per certificate: parents/errCert/errNil/ValidSignature after the call (before: uid odd)>` -- or `=` when that text is
             identical to the one of the same variable in the previous observation -- then `V=` Covers bits. -/
 namespace ZV.C08
 
@@ -43,13 +46,29 @@ def pemCert (u : List Cert) (i : Nat) : Option Cert :=
     | some j => some { c with uid := 100 + j }
     | none => none
 
-def parseTok (u : List Cert) (t : String) : Option (Option Cert) :=
-  match t.toList with
-  | 'c' :: rest =>
-    match (String.ofList rest).toNat? with
-    | some i => (pemCert u i).map some
-    | none => none
-  | _ => some none
+def hexStr (s : String) : Option String :=
+  match ofHex s with
+  | some bs => some (String.ofList (bs.map (fun b => Char.ofNat b.toNat)))
+  | none => none
+
+/-- `none` = malformed token; `some none` = text without a block; `some (some b)` = a decoded block -/
+def parseTok (u : List Cert) (t : String) : Option (Option Block) :=
+  if t == "g" then some none else
+  match t.splitOn "_" with
+  | [ty, nh, body] =>
+    match hexStr ty, nh.toNat? with
+    | some typ, some n =>
+      match body.toList with
+      | 'c' :: rest =>
+        match (String.ofList rest).toNat? with
+        | some i => (pemCert u i).map (fun c => some { typ := typ, nHeaders := n, parsed := some c })
+        | none => none
+      | 'u' :: _ => some (some { typ := typ, nHeaders := n, parsed := none })
+      | 't' :: _ => some (some { typ := typ, nHeaders := n, parsed := none })
+      | ['e'] => some (some { typ := typ, nHeaders := n, parsed := none })
+      | _ => none
+    | _, _ => none
+  | _ => none
 
 def parseOp (u : List Cert) (s : String) : Option Op :=
   match s.toList with
@@ -57,14 +76,15 @@ def parseOp (u : List Cert) (s : String) : Option Op :=
     match (String.ofList rest).splitOn ":" with
     | [r, i] =>
       match r.toNat?, i.toNat? with
-      | some rr, some ii => (u[ii]?).map (fun c => Op.add rr c)
+      | some rr, some ii => (u[ii]?).map (fun c => Op.add rr (some c))
+      | some rr, none => if i == "n" then some (Op.add rr none) else none
       | _, _ => none
     | _ => none
   | 'p' :: rest =>
     match (String.ofList rest).splitOn ":" with
     | [r, toks] =>
       match r.toNat?, (toks.splitOn ".").mapM (parseTok u) with
-      | some rr, some bs => some (Op.pem rr bs)
+      | some rr, some bs => some (Op.pem rr (bs.filterMap id))
       | _, _ => none
     | _ => none
   | 's' :: rest =>
@@ -77,7 +97,7 @@ def bit (b : Bool) : String := if b then "1" else "0"
 def dots (l : List Nat) : String := ".".intercalate (l.map toString)
 
 def showParents : Res Parents → String
-  | .ok p => s!"{dots p.parents}/{match p.errCert with | some c => toString c.uid | none => "-"}/{bit p.errNil}"
+  | .ok p => s!"{dots p.parents}/{match p.errCert with | some c => toString c.uid | none => "-"}/{bit p.errNil}/{bit p.valid}"
   | .err => "err"
   | .panic => "panic"
 
@@ -96,7 +116,7 @@ def showPool (u : List Cert) (m : List (List Bool)) (names kids : List Nat) : Op
     let cb := String.join (u.map (fun c => bit (contains (some p) c)))
     let ns := ",".intercalate (names.map (fun n => dots (p.byName n)))
     let ks := ",".intercalate (kids.map (fun k => dots (p.bySubjectKeyId k)))
-    let pp := ",".intercalate (u.map (fun c => showParents (findVerifiedParents (chkOf m) (some p) c)))
+    let pp := ",".intercalate (u.map (fun c => showParents (findVerifiedParents (chkOf m) (some p) c (c.uid % 2 == 1))))
     s!"{size (some p)}/{dots ((certificates p).map (·.uid))}/{dots (subjects p)}/C={cb}/N={ns}/K={ks}/P={pp}"
 
 def regIds : List Nat := [0, 1, 2, 3]
